@@ -26,6 +26,7 @@ type Engine struct {
 	mapInv    map[string]string
 	accCache  map[string][]accessorImpl
 	typeInv   map[string]string
+	broken    map[string]string // synthesised clause functions that no longer type-check
 	keySorts  *Sorts // only for typeKey computations that must be unit independent
 }
 
